@@ -6,11 +6,13 @@ export GOFLAGS=-mod=mod GOPROXY=off GOSUMDB=off GOTOOLCHAIN=local; unset GOWORK
 DIFF=$1; shift
 PROPS=${@:-$(/verif/bin/protolint -property none 2>&1 | sed 's/.*have \[\(.*\)\]/\1/')}
 WT=/tmp/seed/check-wt-$$
+BASEWT=/repo
 git -C /repo worktree add -q --detach $WT ${SEED_BASE:-HEAD} || exit 2
-trap "git -C /repo worktree remove --force $WT" EXIT
+if [ -n "${SEED_BASE:-}" ]; then BASEWT=/tmp/seed/check-base-$$; git -C /repo worktree add -q --detach $BASEWT $SEED_BASE || exit 2; fi
+trap "git -C /repo worktree remove --force $WT; [ $BASEWT != /repo ] && git -C /repo worktree remove --force $BASEWT" EXIT
 ( cd $WT && git apply $DIFF ) || { echo "APPLY FAILED $DIFF"; exit 3; }
 for p in $PROPS; do
-  /verif/bin/protolint -repo /repo -property $p -no-evidence 2>&1 | grep '^FIRED' | awk '{print $3}' | sort > /tmp/seed/base.$$ 
+  /verif/bin/protolint -repo $BASEWT -property $p -no-evidence 2>&1 | grep '^FIRED' | awk '{print $3}' | sort > /tmp/seed/base.$$ 
   /verif/bin/protolint -repo $WT -property $p -no-evidence > /tmp/seed/mut.$$ 2>&1
   rc=$?
   grep '^FIRED' /tmp/seed/mut.$$ | awk '{print $3}' | sort > /tmp/seed/mutk.$$
